@@ -98,7 +98,33 @@ def reader(ctx):
         # C12.3
         cons = find_connect(v, src=rdn, dst=dk + ".sink")
         ob3.instance("%s: rdata -> data FIFO" % tag, [str(c.stmt) for c in cons])
-        if len(cons) != 1 or (cons[0].stmt.omit and cons[0].stmt.omit & {"valid", "ready", "data"}) or cons[0].stmt.keep is not None and not {"valid", "ready", "data"} <= cons[0].stmt.keep:
+        whole = not (len(cons) != 1 or (cons[0].stmt.omit and cons[0].stmt.omit & {"valid", "ready", "data"}) or cons[0].stmt.keep is not None and not {"valid", "ready", "data"} <= cons[0].stmt.keep)
+        fieldwise = None
+        if not whole and len(cons) <= 1:
+            # the same link written field by field; ready may be tied high (every returned word has a reserved slot - C12.1 decides the capacity)
+            def cov(f_):
+                return len(cons) == 1 and not cons[0].guards and not (cons[0].stmt.omit and f_ in cons[0].stmt.omit) and (cons[0].stmt.keep is None or f_ in cons[0].stmt.keep)
+            st_ = {}
+            for f_, tgt_, want_ in (("valid", dk + ".sink.valid", [rdn + ".valid"]), ("data", dk + ".sink.data", [rdn + ".data"]),
+                                    ("ready", rdn + ".ready", [dk + ".sink.ready", "1"])):
+                if cov(f_):
+                    st_[f_] = "connect"
+                    continue
+                ds_ = [l for l in v.drivers(tgt_) if l.kind == "assign"]
+                if len(ds_) == 1 and not ds_[0].guards and key(ds_[0].value) in want_:
+                    st_[f_] = key(ds_[0].value)
+                elif not ds_:
+                    st_[f_] = None
+                else:
+                    st_[f_] = "?"
+            ob3.instance("%s: rdata -> data FIFO, field by field" % tag, st_)
+            if all(x not in (None, "?") for x in st_.values()):
+                fieldwise = True
+            elif any(x == "?" for x in st_.values()) and not any(x is None for x in st_.values()):
+                fieldwise = None
+                ob3.unknown("%s: returned data reaches the data FIFO through %s: not the plain link this rule reads" % (tag, st_))
+                whole = True     # no verdict from this clause
+        if not whole and not fieldwise:
             ob3.refute("%s:rdata-connect" % tag, "returned data is not connected as a whole record into the data FIFO: %s" % [str(c.stmt) for c in cons], None)
         # an output register / FIFO between the gated pop and the user (a lossless in-order stream primitive whose output is connected to the source with its
         # valid): the reservation gating is then required at ITS input
